@@ -345,6 +345,52 @@ fn check_wrapper_channels(acc: &mut Acc, name: &str, doc: &Value) {
     }
 }
 
+/// Inputs that are bytes but not text: every byte channel must judge them alike (baseline
+/// serde_json::from_slice): a byte-order mark, an invalid UTF-8 byte inside a string, a raw control
+/// character inside a string, a trailing NUL, UTF-16.
+fn check_bytes<T: DeserializeOwned + PartialEq>(acc: &mut Acc, typ: &str, name: &str, doc: &Value) {
+    let compact = doc.to_string().into_bytes();
+    let first_quote = compact.iter().position(|b| *b == b'"').map(|i| i + 1).unwrap_or(0);
+    let with = |at: usize, ins: &[u8]| -> Vec<u8> {
+        let mut v = compact[..at].to_vec();
+        v.extend_from_slice(ins);
+        v.extend_from_slice(&compact[at..]);
+        v
+    };
+    let variants: Vec<(&str, Vec<u8>)> = vec![
+        ("utf8-bom", with(0, &[0xef, 0xbb, 0xbf])),
+        ("0xff-inside-a-string", with(first_quote, &[0xff])),
+        ("0xc0-0x80-inside-a-string", with(first_quote, &[0xc0, 0x80])),
+        ("raw-control-character-inside-a-string", with(first_quote, &[0x01])),
+        ("trailing-nul", with(compact.len(), &[0])),
+        ("utf16-le", String::from_utf8_lossy(&compact).encode_utf16().flat_map(|u| u.to_le_bytes()).collect()),
+        ("lone-high-surrogate-escape", with(first_quote, b"\\ud800")),
+    ];
+    for (vname, bytes) in variants {
+        let base: Option<T> = serde_json::from_slice(&bytes).ok();
+        let chans: Vec<(&str, Guard<Option<T>>)> = vec![
+            ("from_reader", guard(|| serde_json::from_reader(&bytes[..]).ok())),
+            ("Json::from_slice", guard(|| Json::from_slice(&bytes).ok())),
+            ("Json::from_reader", guard(|| Json::from_reader(&bytes[..]).ok())),
+            ("Json::from_reader(3 bytes at a time)", guard(|| Json::from_reader(Trickle(&bytes, 3)).ok())),
+            ("JsonPretty::from_slice", guard(|| in_toto::interchange::JsonPretty::from_slice(&bytes).ok())),
+            ("JsonPretty::from_reader", guard(|| in_toto::interchange::JsonPretty::from_reader(&bytes[..]).ok())),
+        ];
+        for (ch, got) in chans {
+            acc.evaluations += 1;
+            let w = || json!({"type": typ, "document": name, "channel": ch, "byte_variant": vname, "compact": doc.to_string()});
+            match got {
+                Guard::Panicked(l, m) => acc.violation(&format!("panic:{l}"), &format!("decoding panicked: {m}"), w),
+                Guard::Done(g) => {
+                    if g != base {
+                        acc.violation(&format!("channel-dependent:{typ}:{ch}"), &format!("{typ}: bytes that are not text ({vname}) are judged differently by {ch} and by from_slice"), w);
+                    }
+                }
+            }
+        }
+    }
+}
+
 fn node_mutations(v: &Value) -> Vec<Value> {
     // every node replaced by each of a few values, every member deleted (first two levels)
     let mut out = vec![];
@@ -489,6 +535,16 @@ pub fn run(tier: Tier) -> i32 {
         if *typ == "MetadataWrapper" && (i % 7 == 0 || name.starts_with("stdout of") || name.starts_with("steps[0]")) {
             check_wrapper_channels(acc, name, doc);
         }
+        if i % 23 == 0 {
+            match *typ {
+                "MetadataWrapper" => check_bytes::<MetadataWrapper>(acc, typ, name, doc),
+                "Metablock" => check_bytes::<Metablock>(acc, typ, name, doc),
+                "PublicKey" => check_bytes::<PublicKey>(acc, typ, name, doc),
+                "PredicateWrapper" => check_bytes::<PredicateWrapper>(acc, typ, name, doc),
+                "ArtifactRule" => check_bytes::<ArtifactRule>(acc, typ, name, doc),
+                _ => {}
+            }
+        }
         match *typ {
             "MetadataWrapper" => check::<MetadataWrapper>(acc, typ, name, doc, max_tokens),
             "LinkMetadata" => check::<LinkMetadata>(acc, typ, name, doc, max_tokens),
@@ -515,7 +571,7 @@ pub fn run(tier: Tier) -> i32 {
     });
     c.acc = Acc::merge_all(accs);
     c.acc.note_n("documents", jobs.len() as u64);
-    c.rule = format!("documents: all C16 text documents (as MetadataWrapper and as Link/LayoutMetadata), every rule form standalone plus malformed rules, steps, inspections, byproducts, signed blocks, all fixture keys and signatures, C19 predicates and statements (through the wrappers and the typed structs), and node-level mutations of four fixtures (mostly rejected); each in spellings compact / pretty / whitespace-heavy / object members in reverse order / all strings \\u-escaped / one string token escaped at a time (up to {max_tokens} tokens per document) x 15 channels (incl. readers that return short reads and readers that are interrupted before every chunk), plus for MetadataWrapper the channels try_from_bytes / from_bytes / MetablockBuilder::from_raw_metadata; key ids of 8 wrong shapes wherever a key id is read; links with 70 KB (thorough: and 1.1 MB) of captured output; baseline = from_str on the compact spelling. distinct_nontrivial = (type, document) pairs");
+    c.rule = format!("documents: all C16 text documents (as MetadataWrapper and as Link/LayoutMetadata), every rule form standalone plus malformed rules, steps, inspections, byproducts, signed blocks, all fixture keys and signatures, C19 predicates and statements (through the wrappers and the typed structs), and node-level mutations of four fixtures (mostly rejected); each in spellings compact / pretty / whitespace-heavy / object members in reverse order / all strings \\u-escaped / one string token escaped at a time (up to {max_tokens} tokens per document) x 15 channels (incl. readers that return short reads and readers that are interrupted before every chunk), plus for MetadataWrapper the channels try_from_bytes / from_bytes / MetablockBuilder::from_raw_metadata; byte inputs that are not text (BOM, invalid UTF-8, raw control character, trailing NUL, UTF-16, lone surrogate) through 7 byte channels on every 23rd document; key ids of 8 wrong shapes wherever a key id is read; links with 70 KB (thorough: and 1.1 MB) of captured output; baseline = from_str on the compact spelling. distinct_nontrivial = (type, document) pairs");
     c.bound_completed = "complete within the listed documents".into();
     c.assume("serde_json's own parsing is identical across channels for serde_json::Value (the from_value and Json::deserialize channels go through it)");
     c.finish()
